@@ -581,6 +581,11 @@ func (a *jwtAuthenticator) calculateCacheKey(ep *endpoint.Endpoint, renderedURL,
 	digest.Write(stringx.ToBytes(renderedURL))
 	digest.Write(stringx.ToBytes(reference))
 
+	// a key is cached after it passed the validation according to the settings of this
+	// mechanism (validate_jwk, trust_store). An authenticator configured otherwise
+	// must not pick up that key without validating it on its own
+	digest.Write(stringx.ToBytes(a.id))
+
 	// the ttl can be redefined on the rule level. An entry stored by an instance with a longer
 	// ttl must not be used by an instance configured with a shorter one beyond that ttl
 	if a.ttl != nil {
